@@ -335,11 +335,13 @@ func (j *judgeCtx) judgeAdmits(tok int64, d *dimension, h *history, admits, reqs
 		suffix := ""
 		intLimit, has, slot := d.peek(t.peek)
 		switch {
+		case j.wallStepIn(from, t.e):
+			// a wall-clock step inside the span explains the excess by itself
+			// (checked first: a policy delete in the same span is incidental)
+			suffix = "after-wall-clock-step"
 		case j.deleteExplains(d, h, admits, t, tkey, from, form, L):
 			// the admits after the last policy delete alone respect the limit
 			suffix = "after-policy-delete"
-		case j.wallStepIn(from, t.e):
-			suffix = "after-wall-clock-step"
 		case has && intLimit != L && h.lastChangeRaced(t.s, reqs):
 			// the limiter object holds another limit than the policy, and the
 			// policy change that set the limit ran concurrently with a request
